@@ -1271,6 +1271,13 @@ def m_result_map_err(e, st, fr, t, args):
     if d == 0:
         return r
     x = e.get_field(r, ('v', 'Err', 0))
+    if isinstance(f, VConst) and 'into_send_error' in f.text and isinstance(x, VAgg) and x.name == 'TrySendError':
+        e.dropper.drop(st, x.fields[('f', 1)], 'message handed back by try_send is dropped')
+        return err(x.fields[('f', 0)])
+    if isinstance(f, VAgg) and (f.name or '').startswith('{closure') or (isinstance(f, VConst) and '{closure' in f.text):
+        # a user-written conversion closure: run it
+        if call_fnlike(e, st, t, f, [x], 'wrap_err', (t.dest, t.target)):
+            return None
     return err(VAgg(name='ActorError', fields={('f', 0): x}, extra={'from': _describe(x)}))
 
 
@@ -1389,6 +1396,9 @@ def install(eng: Engine, resolver):
     add(r'^(futures::futures_channel::mpsc::)?UnboundedSender::<.*>::len$', m_unbounded_len)
     add(r'^<(futures::futures_channel::mpsc::)?(Unbounded)?Sender<.*> as SinkExt<.*>>::send$', m_sink_send)
     add(r'^<&mut (futures::futures_channel::mpsc::)?(Unbounded)?Receiver<.*> as Stream>::poll_next$', m_rx_poll_next)
+    # the same through a generic parameter (`fn payload_stream<S: Stream>(rx: S)`): decided by the value that is polled
+    add(r'^<(&mut )?[A-Z]\w* as (futures::)?Stream>::poll_next$', m_rx_poll_next)
+    add(r'^<(&mut )?[A-Z]\w* as (futures::)?Stream>::poll_next$', m_flat_map_poll_next)
     add(r'^<(futures::futures_channel::mpsc::)?(Unbounded)?Receiver<.*> as (futures::)?StreamExt>::ready_chunks$', m_ready_chunks)
     add(r'^<(futures::stream::)?ReadyChunks<.*> as (futures::)?StreamExt>::flat_map::<', m_flat_map_iter)
     add(r'^<&mut (futures::stream::)?FlatMap<.*> as Stream>::poll_next$', m_flat_map_poll_next)
